@@ -6,6 +6,7 @@
 //! stub: minicbor::encode::Error::write -> Error::message (kind of a write error only)
 //! assume: value -> bytes -> value decodes from the encoding followed by arbitrary bytes and requires position == encoded length (symbolic slice lengths make every read fallible and cost 7x); bytes -> value -> bytes uses buffers of exactly the laid-out item length
 //! assume: minicbor 0.26.5 primitive codecs (u8..u64, bool, tuples, Vec, tag/array/map heads, skip) are executed as they are, not modelled
+//! outside: KeyValuePairs / NonEmptyKeyValuePairs / OrderPreservingProperties value round-trips with 2 entries of integer type (no verdict within the budget; the 1-entry and the bool shapes and the bytes->value->bytes harnesses cover the same code)
 //! outside: containers with more than 2 elements, nesting deeper than 2 (property: 3), payload types other than u8/u32/u64, buffers longer than 10 bytes; SkipCbor (encode is todo!()); serde impls; HashMap conversions (not executable under the model checker)
 //! outside: KeepRaw equality is asserted on (inner value, raw bytes == own encoding), not with the derived PartialEq: KeepRaw::from(v) has an empty raw by design
 use pallas_codec::minicbor::{self, encode::write::Cursor, Decoder, Encoder};
@@ -98,24 +99,20 @@ fn vec_is<A: PartialEq>(v: &Vec<A>, want: &[A]) -> bool {
     true
 }
 
-// bound: KeyValuePairs / NonEmptyKeyValuePairs with 0..=2 symbolic entries, Def and Indef (concrete per harness), key/value types from {bool,u8,u32,u64} (2 entries of integer type: thorough only)
+// bound: KeyValuePairs / NonEmptyKeyValuePairs with 0..=2 symbolic entries, Def and Indef (concrete per harness), key/value types from {bool,u8,u32,u64}; non-empty maps only in thorough (>= 420 s each); 2 entries only with bool payloads
 v2b!(c03_t_v2b_kvp_def0, KeyValuePairs<u8, u8>, 3, (), KeyValuePairs::Def(vec![]), |g| kv_is(g, true, &[]), |n| n == 1);
 v2b!(c03_q_v2b_kvp_indef0, KeyValuePairs<u8, u8>, 3, (), KeyValuePairs::Indef(vec![]), |g| kv_is(g, false, &[]), |n| n == 2);
-v2b!(c03_q_v2b_kvp_def1_u32_u64, KeyValuePairs<u32, u64>, 4, (a: (u32, u64)), KeyValuePairs::Def(vec![a]), |g| kv_is(g, true, &[a]), |n| n == 15);
-v2b!(c03_q_v2b_kvp_indef1_u8_u8, KeyValuePairs<u8, u8>, 4, (a: (u8, u8)), KeyValuePairs::Indef(vec![a]), |g| kv_is(g, false, &[a]), |n| n == 6);
-v2b!(c03_q_v2b_kvp_def2_bool, KeyValuePairs<bool, bool>, 5, (a: (bool, bool), b: (bool, bool)), KeyValuePairs::Def(vec![a, b]), |g| kv_is(g, true, &[a, b]), |n| n == 5);
-v2b!(c03_q_v2b_kvp_indef2_bool, KeyValuePairs<bool, bool>, 5, (a: (bool, bool), b: (bool, bool)), KeyValuePairs::Indef(vec![a, b]), |g| kv_is(g, false, &[a, b]), |n| n == 6);
-v2b!(c03_t_v2b_kvp_def2_u8_u8, KeyValuePairs<u8, u8>, 5, (a: (u8, u8), b: (u8, u8)), KeyValuePairs::Def(vec![a, b]), |g| kv_is(g, true, &[a, b]), |n| n == 9);
-v2b!(c03_t_v2b_kvp_indef2_u32_u64, KeyValuePairs<u32, u64>, 5, (a: (u32, u64), b: (u32, u64)), KeyValuePairs::Indef(vec![a, b]), |g| kv_is(g, false, &[a, b]), |n| n == 6);
-v2b!(c03_q_v2b_nekvp_def1_u8_u32, NonEmptyKeyValuePairs<u8, u32>, 4, (a: (u8, u32)), NonEmptyKeyValuePairs::from_vec(vec![a]).unwrap(), |g| nekv_is(g, true, &[a]), |n| n == 8);
-v2b!(c03_q_v2b_nekvp_indef2_bool, NonEmptyKeyValuePairs<bool, bool>, 5, (a: (bool, bool), b: (bool, bool)), NonEmptyKeyValuePairs::Indef(vec![a, b]), |g| nekv_is(g, false, &[a, b]), |n| n == 6);
-v2b!(c03_t_v2b_nekvp_indef2_u8_u32, NonEmptyKeyValuePairs<u8, u32>, 5, (a: (u8, u32), b: (u8, u32)), NonEmptyKeyValuePairs::Indef(vec![a, b]), |g| nekv_is(g, false, &[a, b]), |n| n == 6);
+v2b!(c03_t_v2b_kvp_def1_u32_u64, KeyValuePairs<u32, u64>, 4, (a: (u32, u64)), KeyValuePairs::Def(vec![a]), |g| kv_is(g, true, &[a]), |n| n == 15);
+v2b!(c03_t_v2b_kvp_indef1_u8_u8, KeyValuePairs<u8, u8>, 4, (a: (u8, u8)), KeyValuePairs::Indef(vec![a]), |g| kv_is(g, false, &[a]), |n| n == 6);
+v2b!(c03_t_v2b_kvp_def2_bool, KeyValuePairs<bool, bool>, 5, (a: (bool, bool), b: (bool, bool)), KeyValuePairs::Def(vec![a, b]), |g| kv_is(g, true, &[a, b]), |n| n == 5);
+v2b!(c03_t_v2b_nekvp_def1_u8_u32, NonEmptyKeyValuePairs<u8, u32>, 4, (a: (u8, u32)), NonEmptyKeyValuePairs::from_vec(vec![a]).unwrap(), |g| nekv_is(g, true, &[a]), |n| n == 8);
+v2b!(c03_t_v2b_nekvp_indef2_bool, NonEmptyKeyValuePairs<bool, bool>, 5, (a: (bool, bool), b: (bool, bool)), NonEmptyKeyValuePairs::Indef(vec![a, b]), |g| nekv_is(g, false, &[a, b]), |n| n == 6);
 
 // bound: MaybeIndefArray with 0..=2 symbolic elements of bool/u8/u32/u64, Def and Indef (concrete per harness; 2 integer elements: thorough only)
 v2b!(c03_t_v2b_mia_def0, MaybeIndefArray<u8>, 3, (), MaybeIndefArray::Def(vec![]), |g| arr_is(g, true, &[]), |n| n == 1);
 v2b!(c03_q_v2b_mia_indef0, MaybeIndefArray<u8>, 3, (), MaybeIndefArray::Indef(vec![]), |g| arr_is(g, false, &[]), |n| n == 2);
 v2b!(c03_q_v2b_mia_def1_u32, MaybeIndefArray<u32>, 4, (a: u32), MaybeIndefArray::Def(vec![a]), |g| arr_is(g, true, &[a]), |n| n == 6);
-v2b!(c03_q_v2b_mia_indef2_bool, MaybeIndefArray<bool>, 5, (a: bool, b: bool), MaybeIndefArray::Indef(vec![a, b]), |g| arr_is(g, false, &[a, b]), |n| n == 4);
+v2b!(c03_t_v2b_mia_indef2_bool, MaybeIndefArray<bool>, 5, (a: bool, b: bool), MaybeIndefArray::Indef(vec![a, b]), |g| arr_is(g, false, &[a, b]), |n| n == 4);
 v2b!(c03_q_v2b_mia_def2_bool, MaybeIndefArray<bool>, 5, (a: bool, b: bool), MaybeIndefArray::Def(vec![a, b]), |g| arr_is(g, true, &[a, b]), |n| n == 3);
 v2b!(c03_t_v2b_mia_indef2_u8, MaybeIndefArray<u8>, 5, (a: u8, b: u8), MaybeIndefArray::Indef(vec![a, b]), |g| arr_is(g, false, &[a, b]), |n| n == 6);
 v2b!(c03_t_v2b_mia_def2_u64, MaybeIndefArray<u64>, 5, (a: u64, b: u64), MaybeIndefArray::Def(vec![a, b]), |g| arr_is(g, true, &[a, b]), |n| n == 19);
@@ -188,13 +185,12 @@ impl<'b, C> minicbor::Decode<'b, C> for Prop {
         Ok(Prop { k: d.u8()?, v: d.u32()? })
     }
 }
-// bound: OrderPreservingProperties over 0..=2 symbolic (u8 key, u32 value) entries
+// bound: OrderPreservingProperties over 0..=1 symbolic (u8 key, u32 value) entries
 v2b!(c03_t_v2b_opp0, OrderPreservingProperties<Prop>, 3, (), OrderPreservingProperties::from(vec![]), |g| g.deref().len() == 0, |n| n == 1);
-v2b!(c03_q_v2b_opp1, OrderPreservingProperties<Prop>, 4, (a: Prop), OrderPreservingProperties::from(vec![a]), |g| vec_is(g.deref(), &[a]), |n| n == 8);
-v2b!(c03_t_v2b_opp2, OrderPreservingProperties<Prop>, 5, (a: Prop, b: Prop), OrderPreservingProperties::from(vec![a, b]), |g| vec_is(g.deref(), &[a, b]), |n| n == 15);
+v2b!(c03_t_v2b_opp1, OrderPreservingProperties<Prop>, 4, (a: Prop), OrderPreservingProperties::from(vec![a]), |g| vec_is(g.deref(), &[a]), |n| n == 8);
 
 // bound: AnyCbor::from_encode(symbolic u32): the wrapped bytes come back verbatim
-v2b!(c03_q_v2b_anycbor_u32, AnyCbor, 4, (a: u32), AnyCbor::from_encode(a), |g| { let w: Result<u32, _> = minicbor::decode(g.raw_bytes()); let ok = matches!(&w, Ok(x) if *x == a); core::mem::forget(w); ok }, |n| n == 5);
+v2b!(c03_t_v2b_anycbor_u32, AnyCbor, 4, (a: u32), AnyCbor::from_encode(a), |g| { let w: Result<u32, _> = minicbor::decode(g.raw_bytes()); let ok = matches!(&w, Ok(x) if *x == a); core::mem::forget(w); ok }, |n| n == 5);
 
 /// bound: KeepRaw::from(symbolic u32) (empty raw: encodes the inner value); decoded inner equal and decoded raw == the encoding
 #[kani::proof]
@@ -270,7 +266,7 @@ pallas_codec::codec_by_datatype! {
 // bound: codec_by_datatype! on a 3-variant enum (u32 | bool | array of (bool, u8, bool)), variant concrete per harness, fields symbolic
 v2b!(c03_q_v2b_bydt_coin, Thing, 3, (a: u32), Thing::Coin(a), |g| matches!(g, Thing::Coin(x) if *x == a), |n| n == 5);
 v2b!(c03_t_v2b_bydt_change, Thing, 3, (a: bool), Thing::Change(a), |g| matches!(g, Thing::Change(x) if *x == a), |n| n == 1);
-v2b!(c03_q_v2b_bydt_multi, Thing, 3, (a: bool, b: u8, c: bool), Thing::Multi(a, b, c), |g| matches!(g, Thing::Multi(x, y, z) if *x == a && *y == b && *z == c), |n| n == 5);
+v2b!(c03_t_v2b_bydt_multi, Thing, 3, (a: bool, b: u8, c: bool), Thing::Multi(a, b, c), |g| matches!(g, Thing::Multi(x, y, z) if *x == a && *y == b && *z == c), |n| n == 5);
 
 // ---------------------------------------------------------------------------------------------
 // (b) bytes -> value -> bytes for the form-preserving wrappers
@@ -354,20 +350,20 @@ b2bx!(c03_t_b2b_nullable_keepraw, Nullable<KeepRaw<u32>>, 9, 3, |b| {});
 // bound: KeyValuePairs<u8,u8> on hand-laid maps: a0 / bf ff / a1 k v / bf k v ff / a2 .. / bf .. ff with minimal u8 items (immediates, or 18 xx with xx >= 0x18)
 b2b!(c03_t_b2b_kvp_def0, KeyValuePairs<u8, u8>, 1, 3, |b| { b[0] = 0xa0; });
 b2b!(c03_q_b2b_kvp_indef0, KeyValuePairs<u8, u8>, 2, 3, |b| { b[0] = 0xbf; b[1] = 0xff; });
-b2b!(c03_q_b2b_kvp_def1_imm, KeyValuePairs<u8, u8>, 3, 4, |b| { b[0] = 0xa1; kani::assume(b[1] <= 0x17 && b[2] <= 0x17); });
+b2b!(c03_t_b2b_kvp_def1_imm, KeyValuePairs<u8, u8>, 3, 4, |b| { b[0] = 0xa1; kani::assume(b[1] <= 0x17 && b[2] <= 0x17); });
 b2b!(c03_q_b2b_kvp_indef1_h18, KeyValuePairs<u8, u8>, 6, 4, |b| { b[0] = 0xbf; b[1] = 0x18; b[3] = 0x18; b[5] = 0xff; kani::assume(b[2] >= 0x18 && b[4] >= 0x18); });
 b2b!(c03_t_b2b_kvp_def2_mixed, KeyValuePairs<u8, u8>, 7, 5, |b| { b[0] = 0xa2; kani::assume(b[1] <= 0x17); b[2] = 0x18; kani::assume(b[3] >= 0x18); b[4] = 0x18; kani::assume(b[5] >= 0x18 && b[6] <= 0x17); });
 b2b!(c03_t_b2b_kvp_indef2_imm, KeyValuePairs<u8, u8>, 6, 5, |b| { b[0] = 0xbf; b[5] = 0xff; kani::assume(b[1] <= 0x17 && b[2] <= 0x17 && b[3] <= 0x17 && b[4] <= 0x17); });
 // bound: KeyValuePairs<KeepRaw<u32>,KeepRaw<u32>> on a1 + 9 symbolic bytes (any item heads the elements accept)
 b2bx!(c03_t_b2b_kvp_def1_keepraw, KeyValuePairs<KeepRaw<u32>, KeepRaw<u32>>, 10, 4, |b| { b[0] = 0xa1; });
 // bound: KeyValuePairs<u8,u8> with a non-minimal definite length head (b8 01 k v)
-b2b!(c03_q_b2b_kvp_len_h18, KeyValuePairs<u8, u8>, 4, 4, |b| { b[0] = 0xb8; b[1] = 0x01; kani::assume(b[2] <= 0x17 && b[3] <= 0x17); });
+b2b!(c03_t_b2b_kvp_len_h18, KeyValuePairs<u8, u8>, 4, 4, |b| { b[0] = 0xb8; b[1] = 0x01; kani::assume(b[2] <= 0x17 && b[3] <= 0x17); });
 
-// bound: MaybeIndefArray<u8|u32> on hand-laid arrays: 80 / 9f ff / 81 x / 9f x ff / 82 x y / 9f x y ff with minimal items
+// bound: MaybeIndefArray<u8|u32> on hand-laid arrays: 80 / 9f ff / 81 x / 9f x ff / 82 x y / 9f x y ff with minimal items (u32 under a 1a head: value >= 0x10000)
 b2b!(c03_t_b2b_mia_def0, MaybeIndefArray<u8>, 1, 3, |b| { b[0] = 0x80; });
 b2b!(c03_q_b2b_mia_indef0, MaybeIndefArray<u8>, 2, 3, |b| { b[0] = 0x9f; b[1] = 0xff; });
 b2b!(c03_q_b2b_mia_def1_imm, MaybeIndefArray<u8>, 2, 4, |b| { b[0] = 0x81; kani::assume(b[1] <= 0x17); });
-b2b!(c03_q_b2b_mia_indef1_u32, MaybeIndefArray<u32>, 7, 4, |b| { b[0] = 0x9f; b[1] = 0x1a; b[6] = 0xff; });
+b2b!(c03_q_b2b_mia_indef1_u32, MaybeIndefArray<u32>, 7, 4, |b| { b[0] = 0x9f; b[1] = 0x1a; b[6] = 0xff; kani::assume(b[2] != 0 || b[3] != 0); });
 b2b!(c03_t_b2b_mia_def2_h18, MaybeIndefArray<u8>, 5, 5, |b| { b[0] = 0x82; b[1] = 0x18; b[3] = 0x18; kani::assume(b[2] >= 0x18 && b[4] >= 0x18); });
 b2b!(c03_t_b2b_mia_indef2_imm, MaybeIndefArray<u8>, 4, 5, |b| { b[0] = 0x9f; b[3] = 0xff; kani::assume(b[1] <= 0x17 && b[2] <= 0x17); });
 // bound: MaybeIndefArray<KeepRaw<u32>> on 81 + 9 symbolic bytes; nested MaybeIndefArray<MaybeIndefArray<u8>> 9f 81 x 9f y ff ff (depth 2)
@@ -422,9 +418,11 @@ fn c03_q_keepraw_capture() {
         let end = d.position();
         assert!(end == start + k, "decoder advanced by what the inner decoder consumed");
         assert!(kr.raw_cbor().len() == k, "raw has the consumed length");
-        let i: usize = kani::any();
-        kani::assume(i < k);
-        assert!(kr.raw_cbor()[i] == b[start + i], "raw is the consumed input slice");
+        if k > 0 {
+            let i: usize = kani::any();
+            kani::assume(i < k);
+            assert!(kr.raw_cbor()[i] == b[start + i], "raw is the consumed input slice");
+        }
     }
     kani::cover!(matches!(&r, Ok(kr) if kr.deref().0 == 8), "whole input consumed");
     kani::cover!(matches!(&r, Ok(kr) if kr.deref().0 == 0), "nothing consumed");
